@@ -282,7 +282,7 @@ def normalized_nodes_on_bdry(nodes_on_bdry, length):
         return [(nodes_on_bdry, nodes_on_bdry)] * length
     elif (length == 1 and len(nodes_on_bdry) == 2
           and all(isinstance(d, bool) for d in nodes_on_bdry)):
-        return [nodes_on_bdry[0], nodes_on_bdry[1]]
+        return [(bool(nodes_on_bdry[0]), bool(nodes_on_bdry[1]))]
     elif len(nodes_on_bdry) == length:
         out_list = []
 
